@@ -280,7 +280,7 @@ pub fn literal_tokens(patterns: &[&str], ascii: bool) -> Vec<String> {
 /// iteration cursor, the prefilter and look-behind context interact.
 pub fn gen_hay_tokens(rng: &mut Rng, toks: &[String], alpha: &[char], max_chars: u64) -> String {
     let mut s = String::new();
-    let n = if max_chars > 32 { rng.range(8, 60) } else { rng.range(2, 8) };
+    let n = if max_chars > 160 { rng.range(100, 300) } else if max_chars > 32 { rng.range(8, 60) } else { rng.range(2, 8) };
     for _ in 0..n {
         match rng.below(8) {
             0 => s.push(alpha[rng.usize_below(alpha.len())]),
@@ -442,7 +442,11 @@ pub fn gen_world(base: u64, run: u64, profile: Profile) -> World {
         let toks = if ascii_only { &toks_a } else { &toks_u };
         // 1 in 16 haystacks is long (up to 160 chars): size thresholds in prefilter scans
         // (SIMD widths, windows, unrolled loops) are out of reach of 32-char haystacks
-        let maxc = if wl.chance(1, 16) { 160 } else { 32 };
+        let maxc = match wl.below(64) {
+            0 => 600, // offsets and match counts beyond 255
+            1..=4 => 160,
+            _ => 32,
+        };
         let text = if !toks.is_empty() && wl.chance(2, 5) { gen_hay_tokens(&mut wl, toks, a, maxc) } else { gen_hay(&mut wl, a, maxc) };
         // haystack 0 is always shared so that every thread sees at least one
         let owner = if !hays.is_empty() && wl.chance(1, 4) { Some(wl.below(nthreads as u64) as u32) } else { None };
